@@ -139,6 +139,7 @@ pub struct SetEng<'c, KD: Kind, const N: usize> {
     pub mutated_after_clone: bool,
     pub groups: u8,
     pub dup_paths: u32,
+    pub poisoned: bool,
 }
 
 fn unexpected(cx: &mut Ctx, liar: bool, owners: PS, p: &Pk) -> bool {
@@ -221,6 +222,7 @@ where
                 Ok(o) => o,
                 Err(_) => {
                     cx.chk(P_ALL, false, "broken-container", || "iterating the set panicked".into());
+                    self.poisoned = true;
                     return;
                 }
             };
@@ -229,6 +231,9 @@ where
             cx.chk(P_WELL, obs.len() == len, "len-vs-iter", || format!("len()={} but iteration yields {} elements", len, obs.len()));
             cx.chk(P_WELL, slot.c.m.is_empty() == (len == 0), "is_empty", || format!("is_empty()={} with len()={}", slot.c.m.is_empty(), len));
             cx.chk(P_WELL, len <= cap, "len-vs-capacity", || format!("len()={len} exceeds capacity()={cap}"));
+            if len > cap || !slot.c.intact() {
+                self.poisoned = true;
+            }
             cx.chk(P03, cap == N, "capacity", || format!("capacity()={cap} but N={N}"));
             cx.chk(P_CANARY, slot.c.intact(), "canary", || "bytes outside the container were overwritten".into());
             for o in &obs {
@@ -1363,6 +1368,10 @@ where
         self.cx.cur_op = "final-drop";
         for w in (0..2).rev() {
             if let Some(s) = self.slots[w].take() {
+                if self.poisoned {
+                    std::mem::forget(s);
+                    continue;
+                }
                 let c = s.c;
                 if let Err(p) = tl::lib(move || drop(c)) {
                     if p == Pk::Injected {
@@ -1439,6 +1448,7 @@ where
         ever_faulted: false,
         lib_panicked: false,
         cur_target: 0,
+        poisoned: false,
         cloned: false,
         mutated_after_clone: false,
         groups: 0,
